@@ -62,13 +62,13 @@ def run(cap):
     wlab = 0.0
     for region in mesh.regions.values():
         for i, c in enumerate(region.contours):
-            wlab = max(wlab, abs(c.psival - region.psi_vals[i]))
+            wlab = max(wlab, abs(c.psival - region.psi_vals[i]) / float(np.spacing(max(abs(region.psi_vals[i]), 1e-300))))
             pts = np.array([[p.R, p.Z] for p in c])
             r = np.abs(psi(pts[:, 0], pts[:, 1]) - region.psi_vals[i]) / _tau(opts, region.psi_vals[i])
             wc = max(wc, amax(r)) if not np.isnan(amax(r)) else float("nan")
             nc += len(pts)
     out.append(rec("mem.contour_points_on_surface", cls, nc, wc, 1.0))
-    out.append(rec("mem.contour_psival_label", cls, nc, wlab, 0.0))
+    out.append(rec("mem.contour_psival_label", cls, nc, wlab, 4.0, note="in units of the floating-point spacing of the value"))
 
     # ---- file: R,Z arrays vs psixy arrays vs the region rows ---------------------------
     nc_ = cap.nc
